@@ -27,7 +27,7 @@ EXPLANATION = (
     'exponents however stored.'
     ' (C16.7) 26 exact and 50 reference rows (4 ulp) at large magnitudes, thousands of turns and underflowing arguments, one construct per row; sequences of rounding calls in one process, also after calls that fail.')
 NOT_DECIDED = 'agreement with IEEE/decimal reference values (numeric)'
-TRUSTED = ['argument conventions of numpy.arctan2 and of the decimal rounding modes']
+TRUSTED = ["numpy's floating point error state: which faults (invalid, divide, over, under) a unary function reports under errstate(... = 'raise')", 'argument conventions of numpy.arctan2 and of the decimal rounding modes']
 
 BIG = 1.0e300
 
